@@ -1,4 +1,138 @@
-#include "run.h"
+// Engine afail (C08): a scenario is (fault-free prefix history, target call, fault-free suffix). The target
+// call is first run fault-free to count its n allocation requests; sub-execution k in 1..n replays the
+// scenario and refuses request k.
+#include <algorithm>
+#include <cstring>
 #include "gen.h"
-RunResult run_afail(const Plan &, EventLog &, RunStats &, Progress *) { return RunResult(); }
-Plan gen_afail_plan(const std::string &p, uint64_t s, int64_t r) { return gen_plan(p, s, r); }
+#include "model.h"
+#include "run.h"
+
+static int64_t R(Rng &r) { return (int64_t)(r.next() >> 2); }
+static int64_t d2bits(double d) { int64_t b; memcpy(&b, &d, 8); return b; }
+Plan gen_plan(const std::string &property, uint64_t seed, int64_t run);
+
+static Step mk(const std::string &op, std::initializer_list<int64_t> a = {}, std::initializer_list<std::string> s = {}) {
+    Step st; st.op = op; st.a.assign(a.begin(), a.end()); st.s.assign(s.begin(), s.end()); return st;
+}
+Plan gen_afail_plan(const std::string &prop, uint64_t seed, int64_t run) {
+    // prefix: reuse the C07 mix (constructors, edits, references, parse, duplicate)
+    Plan base = gen_plan("C07", mix64(seed, 0xAFA11), run);
+    Plan p;
+    p.engine = "afail"; p.property = prop; p.seed = seed; p.run = run;
+    p.knobs = base.knobs;
+    Rng r(mix64(mix64(seed, hash_str(prop)), (uint64_t)run));
+    size_t keep = (size_t)r.range(2, 25);
+    for (size_t i = 0; i < base.steps.size() && i < keep; i++) {
+        const std::string &op = base.steps[i].op;
+        if (op == "refuse" || op == "print") continue;
+        p.steps.push_back(base.steps[i]);
+    }
+    static const char *keys[] = {"a", "b", "A", "k1", "name", "", "ck", "longer-key-to-copy-0123456789"};
+    std::string key = keys[r.below(8)];
+    Step t;
+    switch (r.below(24)) {
+        case 0: case 1: case 2: case 3: t = mk("parse", {R(r), R(r), R(r), R(r)}); break;
+        case 4: case 5: case 6: { t = mk("print", {R(r), R(r), (int64_t)r.below(3), R(r), R(r)}); break; }
+        case 7: t = mk("new_string", {}, {gen_string(r, false, false)}); break;
+        case 8: t = mk(r.chance(1, 2) ? "new_raw" : "new_number", {d2bits(1.5)}, {"[1]"}); break;
+        case 9: { static const char *c[] = {"new_null", "new_true", "new_false", "new_bool", "new_array", "new_object", "new_strref", "new_arrref", "new_objref"}; t = mk(c[r.below(9)], {R(r), R(r)}); break; }
+        case 10: case 11: { static const char *c[] = {"bulk_int", "bulk_float", "bulk_double", "bulk_string"}; t = mk(c[r.below(4)], {(int64_t)r.range(0, 13), R(r)}); break; }
+        case 12: case 13: case 14: t = mk("addh", {R(r), R(r), R(r), d2bits(2.25)}, {key, gen_string(r, false, false)}); break;
+        case 15: t = mk("add_obj", {R(r), R(r), R(r)}, {key}); break;
+        case 16: t = mk("add_ref_arr", {R(r), R(r), R(r), R(r)}); break;
+        case 17: t = mk("add_ref_obj", {R(r), R(r), R(r), R(r)}, {key}); break;
+        case 18: case 19: t = mk("dup", {R(r), R(r), (int64_t)r.chance(3, 4)}); break;
+        case 20: t = mk("replace_key", {R(r), R(r), R(r), R(r)}, {key}); break;
+        case 21: t = mk("replace_key_alias", {R(r), R(r), R(r), R(r)}); break;
+        case 22: t = mk("set_valuestring", {R(r), R(r), 0, 0}, {gen_string(r, false, false, 40) + "-grow-grow-grow-grow"}); break;
+        default: t = mk("add_obj_alias", {R(r), R(r), R(r)}); break;
+    }
+    t.task = 9;  // the faulted call
+    p.steps.push_back(t);
+    // suffix: the library must still be usable
+    p.steps.push_back(mk("parse", {R(r), R(r), R(r), R(r)}));
+    p.steps.push_back(mk("new_object"));
+    p.steps.push_back(mk("addh", {R(r), R(r), R(r), d2bits(3.0)}, {"after", "x"}));
+    p.steps.push_back(mk("print", {R(r), R(r), R(r), R(r), R(r)}));
+    p.steps.push_back(mk("dup", {R(r), R(r), 1}));
+    p.steps.push_back(mk("delete", {R(r)}));
+    return p;
+}
+
+static std::vector<std::string> print_roots(World &w) {
+    std::vector<std::string> out;
+    for (int i = 0; i < NSLOTS; i++) {
+        if (!w.slots[i]) { out.push_back("<empty>"); continue; }
+        std::string both;
+        for (int fmt = 0; fmt < 2; fmt++) {
+            char *t = fmt ? cJSON_Print(w.slots[i]->c) : cJSON_PrintUnformatted(w.slots[i]->c);
+            both += t ? t : "<unprintable>";
+            both.push_back('\x1e');
+            if (t) cJSON_free(t);
+        }
+        out.push_back(both);
+    }
+    return out;
+}
+
+RunResult run_afail(const Plan &p, EventLog &log, RunStats &stats, Progress *prog) {
+    RunResult rr;
+    asim::reset_run((unsigned char)p.knob("fill", 0xA5), p.knob("realloc", 0) ? asim::RA_INPLACE : asim::RA_MOVE);
+    WorldCfg cfg = cfg_for(p.property);
+    cfg.hookcfg = p.knob("hooks", 0) ? HK_BOTH : HK_DEFAULT;
+    int target = -1;
+    for (size_t i = 0; i < p.steps.size(); i++) if (p.steps[i].task == 9) { target = (int)i; break; }
+    uint64_t judged0 = stats.judged_steps;
+    {
+        World w(cfg, log, stats);
+        w.profile = (int)p.knob("profile", 0);
+        if (prog) w.live_judged = &prog->judged;
+        w.armed_step = target;
+        w.force_judged_step = target;
+        w.crash_judged_from = target >= 0 ? target : (1 << 30);
+        w.arm_fail_k = p.sub > 0 ? (long)p.sub : 0;
+        try {
+            for (size_t i = 0; i < p.steps.size(); i++) {
+                if (prog) prog->step = (int)i;
+                if ((int)i != target) { w.exec(p.steps[i], (int)i); continue; }
+                std::vector<uint64_t> live0 = asim::live_serials();
+                std::vector<std::string> text0 = print_roots(w);
+                w.exec(p.steps[i], (int)i);
+                long n = asim::requests_in_step();
+                bool fired = asim::fail_fired_in_step();
+                if (p.sub <= 0) rr.subcount = n > 300 ? 300 : n;
+                std::string opn = p.steps[i].op;
+                if (fired) {
+                    stats.fault_counts[cfg.hookcfg == HK_BOTH ? "alloc_fail_custom_malloc" : "alloc_fail_default_allocator"]++;
+                    stats.fault_counts["alloc_fail_in_" + opn]++;
+                    stats.state_hashes.push_back(mix64(mix64(hash_str(opn), (uint64_t)p.sub), (uint64_t)cfg.hookcfg * 2 + (w.failed_cleanly ? 1 : 0)));
+                    if (p.sub >= 2) w.mark_nontrivial();
+                }
+                if (w.failed_cleanly) {
+                    std::vector<uint64_t> live1 = asim::live_serials();
+                    if (live1 != live0) {
+                        std::string d;
+                        size_t extra = 0, lost = 0;
+                        for (uint64_t s : live1) if (!std::binary_search(live0.begin(), live0.end(), s)) extra++;
+                        for (uint64_t s : live0) if (!std::binary_search(live1.begin(), live1.end(), s)) lost++;
+                        w.violation("failed-call-ledger", opn + " reported failure after refused request " + std::to_string(p.sub) + " but " + std::to_string(extra) + " block(s) allocated during the call are still allocated and " + std::to_string(lost) + " pre-existing block(s) were released:" + asim::describe_live(6));
+                    }
+                    std::vector<std::string> text1 = print_roots(w);
+                    for (int s = 0; s < NSLOTS; s++)
+                        if (text0[(size_t)s] != text1[(size_t)s]) w.violation("failed-call-tree-modified", opn + " reported failure after refused request " + std::to_string(p.sub) + " but the tree in slot " + std::to_string(s) + " prints differently: '" + show_bytes(text1[(size_t)s], 80) + "' vs '" + show_bytes(text0[(size_t)s], 80) + "'");
+                    stats.probes["failed_cleanly"]++;
+                } else if (fired) stats.probes["completed_despite_failure"]++;
+            }
+            if (prog) { prog->step = (int)p.steps.size(); prog->judged = 1; }
+            w.finish();
+        } catch (Stop &s) {
+            rr.outcome = s.o;
+            w.abandon();
+        }
+    }
+    cJSON_InitHooks(nullptr);
+    asim::set_epoch(asim::EP_DEFAULT);
+    rr.evaluations = (p.sub > 0) ? 1 : 0;
+    (void)judged0;
+    return rr;
+}
